@@ -766,6 +766,7 @@ func (c *FuncCtx) indexVal(st *State, base, idx *Val, pos token.Pos) *Val {
 		c.safe(st, "index", pos, mkAnd(app("<=", "0", idx.S), app("<", idx.S, l)), "slice index in range")
 		r := c.val(mkSel(acc("base_"+s, base.S), mkAdd(acc("off_"+s, base.S), idx.S)), u.Elem())
 		c.readFacts(st, r)
+		c.wfElem(st, r)
 		return r
 	case *types.Map:
 		s := base.Sort
@@ -1026,14 +1027,28 @@ func (c *FuncCtx) alloc(st *State, t types.Type) string {
 		st.assume(app(">", r, prev.S))
 	}
 	st.bound["$alloc_"+structName(t)] = &Val{S: r, Sort: "Int"}
+	st.allocs = append(st.allocs, r)
 	return r
 }
 
 // readFacts: type-range facts for a value just read from memory. Spec
 // expressions do not need them (and they would bloat quantifier bodies).
 func (c *FuncCtx) readFacts(st *State, r *Val) {
-	if c.inSpec(st) {
+	if c.inSpec(st) && strings.Contains(r.S, "?") {
 		return
 	}
 	st.assume(c.eng.typeFacts(r.S, r.T))
+}
+
+// wfElem: trusted data-structure invariant - the pointer slices held in the
+// parser's structures ([]*Option, []*Group, []*Command, []*Arg) contain no nil
+// element (scanStruct/AddGroup/AddCommand/fillParseState only ever store
+// freshly allocated objects). Assumed at element reads in code.
+func (c *FuncCtx) wfElem(st *State, r *Val) {
+	if c.inSpec(st) || !c.eng.spec.WfNonNil {
+		return
+	}
+	if p, ok := under(r.T).(*types.Pointer); ok && c.eng.isHeapStruct(p.Elem()) {
+		st.assume(app("<", "0", r.S))
+	}
 }
